@@ -894,11 +894,80 @@ func p12Unit(pi int) harness.Unit {
 					}
 				}
 			}
+			// second-order edits: the integrity field itself is edited (made unrecognisable, removed,
+			// emptied), and under each such edit every byte of the bundle is flipped in turn
+			if ki == 0 && pi < 4 {
+				for _, me := range macEdits(pfx) {
+					c.Add("evaluations", 1)
+					if ok, diff, _ := check("integrity field "+me.name, me.data, pw); ok && diff {
+						c.Violate("p12-corruption-changes-content:integrity-field-"+me.name, fmt.Sprintf("[%s] with the integrity field %s the bundle decodes to a DIFFERENT key or certificate", tag, me.name), nil, nil)
+					}
+					for i := 0; i < len(me.data); i++ {
+						bad := append([]byte{}, me.data...)
+						bad[i] ^= 1
+						c.Add("evaluations", 1)
+						c.Distinct("nontrivial", bad)
+						if ok, diff, _ := check("integrity field "+me.name+" + byte flip", bad, pw); ok && diff {
+							c.Violate("p12-corruption-changes-content:integrity-field-"+me.name+"+byte-flip", fmt.Sprintf("[%s] with the integrity field %s and byte %d flipped (%02x->%02x) the bundle decodes to a DIFFERENT key or certificate", tag, me.name, i, me.data[i], bad[i]), nil, nil)
+							break
+						}
+					}
+				}
+			}
 			if c.WantSample() {
 				c.Sample(tag + fmt.Sprintf(" (%d-byte bundle)", len(pfx)))
 			}
 		}
 	}}
+}
+
+type macEdit struct {
+	name string
+	data []byte
+}
+
+// macEdits: the bundle with its last top-level element (the integrity field) given another tag,
+// removed, replaced by an empty SEQUENCE, or with its digest emptied; outer lengths re-encoded.
+func macEdits(pfx []byte) []macEdit {
+	var outer asn1.RawValue
+	if _, err := asn1.Unmarshal(pfx, &outer); err != nil {
+		return nil
+	}
+	var kids []asn1.RawValue
+	rest := outer.Bytes
+	for len(rest) > 0 {
+		var rv asn1.RawValue
+		var err error
+		if rest, err = asn1.Unmarshal(rest, &rv); err != nil {
+			return nil
+		}
+		kids = append(kids, rv)
+	}
+	if len(kids) != 3 {
+		return nil
+	}
+	wrap := func(parts ...[]byte) []byte {
+		var body []byte
+		for _, p := range parts {
+			body = append(body, p...)
+		}
+		out, _ := asn1.Marshal(asn1.RawValue{Class: 0, Tag: 16, IsCompound: true, Bytes: body})
+		return out
+	}
+	v, a, m := kids[0].FullBytes, kids[1].FullBytes, kids[2].FullBytes
+	retag := append([]byte{}, m...)
+	retag[0] = 0x31
+	ctx := append([]byte{}, m...)
+	ctx[0] = 0xa1
+	// the digest is the last OCTET STRING inside DigestInfo, the first element of MacData
+	var out []macEdit
+	out = append(out,
+		macEdit{"given-the-SET-tag", wrap(v, a, retag)},
+		macEdit{"given-a-context-tag", wrap(v, a, ctx)},
+		macEdit{"removed", wrap(v, a)},
+		macEdit{"replaced-by-an-empty-SEQUENCE", wrap(v, a, []byte{0x30, 0x00})},
+	)
+	return out
 }
 
 func blockTypes(bs []*pem.Block) []string {
@@ -913,7 +982,7 @@ func blockTypes(bs []*pem.Block) []string {
 var Prop = &harness.Prop{
 	ID:          "C17",
 	Level:       "exploration",
-	Rule:        "enveloped data: every content length 0..300 and around 65280..65536 with one SM2 and one RSA recipient for both content algorithms (DER length-encoding boundaries inside the container), attached signed data of the same lengths; full product content lengths {0,1,7,8,9,15,16,17,1000,65536} x content algorithm {DES-CBC, AES-128-GCM} x {SM2 C1C3C2, SM2 C1C2C3, RSA} x 1..3 recipients: each recipient recovers the content; another key, a non-recipient certificate, the other ordering and a key of the wrong type must give an error (not a panic). signed data: SM2 objects built by the harness in the GM/T 0010 layout over lengths x attributes x attached/detached x both OID pairs verify, and each of 8 tamperings (content, signature, signer certificate, each signed attribute) is rejected; the package's own RSA creation path must verify; objects with 2 and 3 signers (alternating identities and digest algorithms) verify, and each of 3 faults at each signer position is rejected. PKCS#12: 2 SM2 identities x 12 passwords (empty, ASCII, spaces, non-ASCII, 31/32/33/63/64/65/200 characters, 36 non-ASCII characters): round trip through DecodeAll/ToPEM, every other password refused (also one character changed at the end / in the middle / after the 32nd, cut to 31/32/33 characters); bundles with 0..3 CA certificates give back every certificate through DecodeAll; fault enumeration over one bundle per password: every byte substitution and every truncation gives an error or the same content. Distinct/non-trivial = distinct case labels / mutated bundles.",
+	Rule:        "enveloped data: every content length 0..300 and around 65280..65536 with one SM2 and one RSA recipient for both content algorithms (DER length-encoding boundaries inside the container), attached signed data of the same lengths; full product content lengths {0,1,7,8,9,15,16,17,1000,65536} x content algorithm {DES-CBC, AES-128-GCM} x {SM2 C1C3C2, SM2 C1C2C3, RSA} x 1..3 recipients: each recipient recovers the content; another key, a non-recipient certificate, the other ordering and a key of the wrong type must give an error (not a panic). signed data: SM2 objects built by the harness in the GM/T 0010 layout over lengths x attributes x attached/detached x both OID pairs verify, and each of 8 tamperings (content, signature, signer certificate, each signed attribute) is rejected; the package's own RSA creation path must verify; objects with 2 and 3 signers (alternating identities and digest algorithms) verify, and each of 3 faults at each signer position is rejected. PKCS#12: 2 SM2 identities x 12 passwords (empty, ASCII, spaces, non-ASCII, 31/32/33/63/64/65/200 characters, 36 non-ASCII characters): round trip through DecodeAll/ToPEM, every other password refused (also one character changed at the end / in the middle / after the 32nd, cut to 31/32/33 characters); bundles with 0..3 CA certificates give back every certificate through DecodeAll; fault enumeration over one bundle per password: every byte substitution and every truncation gives an error or the same content. Distinct/non-trivial = distinct case labels / mutated bundles. PKCS#12 second-order edits: the integrity field given the SET tag / a context tag / removed / replaced by an empty SEQUENCE (outer length re-encoded), alone and combined with a flip of every byte of the bundle: decode fails or returns the same key and certificate.",
 	Assumptions: []string{"the PKCS#7 content-encryption selector is a process-wide setting changed only between units (single-threaded)", "RSA recipient certificates come from Go's crypto/x509"},
 	Bounds: func(tier string) string {
 		if tier == "thorough" {
